@@ -47,6 +47,12 @@ def fromBackend : Body → Bool
     for which no backend produced a response. -/
 def failureReported (o : Seen) : Bool := !is2xx o.status && isErrorBody o.body
 
+/-- Clause 1b — "never a 2xx [with] an empty or fabricated completion": whatever went wrong upstream
+    (the property's quantifier includes malformed backend JSON), a 2xx answer is never an empty body
+    nor an event stream without any content block. -/
+def noEmptySuccess (o : Seen) : Bool :=
+  !(is2xx o.status && (o.body == .empty || o.body == .sse false))
+
 /-- Clause 2 — "errors that Olla itself produces on the Anthropic routes are Anthropic error objects,
     in both streaming and non-streaming mode": a non-2xx answer on an Anthropic route whose body is
     not the backend's own is an Anthropic error object served as JSON. -/
